@@ -18,8 +18,10 @@ RULE = ("(a) every command with <=K arguments over an alphabet of 58 argument le
         "generated files.  non-trivial = >=1 argument or comment; distinct by source text")
 
 UNQ = ["a", "a1_", "-Dx=y", "a;b", "a\;b", "a\\ b", "\\#", "\\(", "\\\"", "\\\\", "\\t\\n\\r", "${v}", "${v}/x", "$ENV{H}",
-       "@v@", "<t>", "$<g:e>", "a$b", "[x]", "x[1]", "]]", "[", "a=b", "ü"]
-QUO = ['""', '"a b"', '"a#b"', '"a;b"', '"(x)"', '"[[x]]"', '"\\"q\\""', '"\\(x\\)"', '"l1\nl2"', '"c\\\nd"', '"ü✓"']
+       "@v@", "<t>", "$<g:e>", "a$b", "[x]", "x[1]", "]]", "[", "a=b", "ü",
+       # characters that Python's str.splitlines()/isspace() treat as separators but CMake as ordinary text
+       "a\x0cb", "a\u2028b", "a\x85b", "a\x0bb", "a\xa0b"]
+QUO = ['"x\x0cy\u2029z"', '""', '"a b"', '"a#b"', '"a;b"', '"(x)"', '"[[x]]"', '"\\"q\\""', '"\\(x\\)"', '"l1\nl2"', '"c\\\nd"', '"ü✓"']
 BRA = ["[[a]]", "[[a;b]]", "[[a(b]]", '[[ "x ]]', "[=[a]]b]=]", "[==[\nx\n]==]", "[[#c]]"]
 PAR = ["()", "(a)", "(a (b))", "((a) b)"]
 LEX = UNQ + QUO + BRA + PAR
@@ -29,7 +31,8 @@ SEPS = [" ", "\n", "\t", " #c\n", " #[[c]] "]
 NAMES = ["set", "message", "if", "My_Cmd1", "generic_command", "CMAKE_PARSE_ARGUMENTS"]
 COMMENTS = [" ", "\n", "\n\n", " # c\n", "#\n", "#[\n", "#[=\n", "#[=x\n", "# #[[[ x\n", "#]]\n", "# set(A 1)\n",
             "#[[ b ]]", "#[[ #[[[ x ]]", "#[=[ ]] ]=]", "#[==[\nmulti\n]==]", "# café ✓\n", "#[[[x]]",
-            "#[[[x]]\n#]]\n", "#[=[[x]=]", "#[[\n]]", "#[[]]", "# \"unterminated\n", "#(\n", "#\\q\n"]
+            "#[[[x]]\n#]]\n", "#[=[[x]=]", "#[[\n]]", "#[[]]", "# \"unterminated\n", "#(\n", "#\\q\n",
+            "# ff\x0c set(Z 1)\n", "# ls\u2028 stray (\n", "#[[ nel\x85 ]]", "# vt\x0b\"\n"]
 
 
 # ---------------------------------------------------------------- CMinx side
@@ -267,6 +270,30 @@ def check_signature(args):
             "cls": msgs[0].split(":")[0] if msgs else None, "case": {"label": "documented generic command", "sig_args": args}}
 
 
+def block_files():
+    """balanced block structures (function/macro/class/test, nested), documented or not, in every command-name case"""
+    from .. import cmakegen
+    structs = {
+        "function": [{"k": "function", "doc": 1, "params": ["a"]}, {"k": "set", "doc": 0}],
+        "macro": [{"k": "macro", "doc": 1, "params": ["a"]}, {"k": "cmake_parse_arguments"}],
+        "nested": [{"k": "function", "doc": 1, "params": []}, {"k": "macro", "doc": 1, "params": []}, {"k": "if", "doc": 1},
+                   {"k": "foreach", "doc": 0}],
+        "class": [{"k": "cpp_class", "doc": 1, "bases": ["B"]}, {"k": "cpp_attr", "doc": 1, "default": "v"},
+                  {"k": "cpp_member", "doc": 1, "types": ["int"], "params": ["a"]}, {"k": "close"},
+                  {"k": "cpp_class", "doc": 1}, {"k": "cpp_constructor", "doc": 0, "types": [], "params": [], "impl": "macro"}],
+        "test": [{"k": "ct_add_test", "doc": 1}, {"k": "ct_add_section", "doc": 1, "expectfail": 1},
+                 {"k": "ct_add_section", "doc": 0, "impl": "macro"}],
+    }
+    out = []
+    for name, evs in structs.items():
+        for case in ("lower", "upper", "mixed"):
+            for docs in (True, False):
+                e2 = [dict(e, doc=(e.get("doc", 0) if docs else 0)) if "doc" in e else dict(e) for e in evs]
+                out.append((f"block structure {name}, {case} case, {'documented' if docs else 'undocumented'}",
+                            cmakegen.text_of(e2, case=case)))
+    return out
+
+
 def corpus_files(quick):
     fs = sorted(glob.glob("/usr/share/cmake-3.25/**/*.cmake", recursive=True), key=lambda f: (os.path.getsize(f), f))
     return fs[:300] if quick else fs
@@ -313,6 +340,7 @@ def run(ctx):
     cf = comment_files()
     for (label, text), r in zip(cf, ctx.sweep(check_file, cf, space="comment shapes", selftest=10)):
         pass
+    ctx.sweep(check_file, block_files(), space="block structures x command-name case", selftest=3)
     # 3b. signature of documented generic commands (arguments without line breaks)
     one_line = [l for l in LEX if "\n" not in l]
     sig_jobs = [[a] for a in one_line] + [[a, b] for a in CORE for b in CORE if "\n" not in a + b]
